@@ -1,10 +1,15 @@
 // Package csync has the API of sync for Engine C (one thread, no scheduler).  A Lock that finds
 // the lock held can only be a lock that an earlier call forgot to release (or a call locking
-// twice): it panics instead of hanging the check.  Pool is the deterministic pool of core.
+// twice): it panics instead of hanging the check - unless the code under test has started
+// goroutines of its own (internal parallelism, a background worker): then the lock may simply be
+// busy, and Lock waits for it (for at most two seconds of real time, then it panics all the
+// same).  Pool is the deterministic pool of core.
 package csync
 
 import (
+	"runtime"
 	"sync"
+	"time"
 
 	"github.com/welllog/golib/zzsim/core"
 )
@@ -31,29 +36,35 @@ func (errHeld) Error() string {
 
 var ErrHeld = errHeld{}
 
-type Mutex struct{ m sync.Mutex }
-
-func (x *Mutex) Lock() {
-	if !x.m.TryLock() {
+// acquire: try once; if the lock is held and no goroutine beyond those that existed when the run
+// began is alive, that is a leaked lock; otherwise wait for the holder.
+func acquire(try func() bool) {
+	if try() {
+		return
+	}
+	if runtime.NumGoroutine() <= core.BaseGoroutines {
 		panic(ErrHeld)
 	}
+	deadline := time.Now().Add(2 * time.Second)
+	for !try() {
+		if time.Now().After(deadline) {
+			panic(ErrHeld)
+		}
+		runtime.Gosched()
+	}
 }
+
+type Mutex struct{ m sync.Mutex }
+
+func (x *Mutex) Lock()         { acquire(x.m.TryLock) }
 func (x *Mutex) Unlock()       { x.m.Unlock() }
 func (x *Mutex) TryLock() bool { return x.m.TryLock() }
 
 type RWMutex struct{ m sync.RWMutex }
 
-func (x *RWMutex) Lock() {
-	if !x.m.TryLock() {
-		panic(ErrHeld)
-	}
-}
-func (x *RWMutex) Unlock() { x.m.Unlock() }
-func (x *RWMutex) RLock() {
-	if !x.m.TryRLock() {
-		panic(ErrHeld)
-	}
-}
+func (x *RWMutex) Lock()           { acquire(x.m.TryLock) }
+func (x *RWMutex) Unlock()         { x.m.Unlock() }
+func (x *RWMutex) RLock()          { acquire(x.m.TryRLock) }
 func (x *RWMutex) RUnlock()        { x.m.RUnlock() }
 func (x *RWMutex) TryLock() bool   { return x.m.TryLock() }
 func (x *RWMutex) TryRLock() bool  { return x.m.TryRLock() }
